@@ -240,6 +240,17 @@ fn roundtrip(src: &str, origin: &str) -> Result<bool, String> {
     Ok(true)
 }
 
+/// line endings are layout: the same document with CRLF line endings parses to the same tree (and so prints the same)
+fn crlf_same(src: &str, origin: &str) -> Result<(), String> {
+    if src.contains('\r') { return Ok(()); }
+    let crlf = src.replace('\n', "\r\n");
+    let (Ok(t1), Ok(t2)) = (Document::parse(src), Document::parse(&crlf)) else { return Err(format!("the document is accepted with LF line endings but not with CRLF line endings; {origin}\n{src}")) };
+    let (mut j1, mut j2) = (serde_json::to_value(&t1).unwrap(), serde_json::to_value(&t2).unwrap());
+    strip(&mut j1); strip(&mut j2);
+    if j1 != j2 { return Err(format!("with CRLF line endings the document parses to a different tree (first difference at {}): a construct is dropped before printing; {origin}\n--- source (LF)\n{src}", first_diff(&j1, &j2, String::new()))); }
+    Ok(())
+}
+
 fn wac_files(dir: &std::path::Path, out: &mut Vec<std::path::PathBuf>) {
     if let Ok(rd) = std::fs::read_dir(dir) {
         for e in rd.flatten() {
@@ -273,7 +284,8 @@ fn main() {
     for i in 0..(n + fixed.len()) {
         let src = if i < fixed.len() { fixed[i].to_string() } else { g.document() };
         match roundtrip(&src, &format!("generated document #{i} (seed {seed})")) {
-            Ok(true) => { generated += 1; if src.len() > 40 { nontrivial.insert(src.clone()); } if samples.len() < 2 && i % 501 == 7 { samples.push(src.replace('\n', " ")); } }
+            Ok(true) => { if let Err(e) = crlf_same(&src, &format!("generated document #{i} (seed {seed})")) { println!("C13-BOUNDED VIOLATION: {e}"); std::process::exit(1); }
+                generated += 1; if src.len() > 40 { nontrivial.insert(src.clone()); } if samples.len() < 2 && i % 501 == 7 { samples.push(src.replace('\n', " ")); } }
             Ok(false) => { println!("C13-ROUNDTRIP the generator produced a document the parser rejects: {:?}\n{src}", Document::parse(&src).err().map(|e| e.to_string())); std::process::exit(2); }
             Err(e) => { println!("C13-BOUNDED VIOLATION: {e}"); std::process::exit(1); }
         }
